@@ -368,3 +368,33 @@ def fn_cat_of_call(c):
         if 'e' in a:
             return a['e']
     return None
+
+
+def table_rows_rule(fx, v, prop, cats):
+    """the static table of admissible reason codes of the given packet types equals the MQTT 5 table (rows admitted ⊆
+    listed, server-sendable ⊆ admitted, strictly ascending) — shared with the properties whose flow branches on
+    admissibility of that packet's reason code"""
+    with open(os.path.join(VERIF, 'spec', 'reason_codes.json')) as f:
+        spec = json.load(f)
+    tables = {}
+    for t in fx.tables:
+        if t.get('fn') != 'boost::mqtt5::reason_codes::detail::valid_codes':
+            continue
+        cat = None
+        for a in t.get('ft') or []:
+            if 'e' in a:
+                cat = a['e']
+        if cat is not None and isinstance(t['value'], list):
+            tables.setdefault(cat, (t, [e['_code']['v'] for e in t['value']]))
+    for cat in cats:
+        if cat not in tables:
+            raise AnalysisBroken('valid_codes<%s> table not found (not instantiated?)' % cat)
+        t, codes = tables[cat]
+        listed, server = set(spec[cat]['listed']), set(spec[cat]['server'])
+        extra = [c for c in codes if c not in listed]
+        missing = [c for c in sorted(server) if c not in codes]
+        asc = all(codes[i] < codes[i + 1] for i in range(len(codes) - 1))
+        v.check(not extra and not missing and asc, 'R-TABLE', '%s reason codes' % cat,
+                'admitted %s; not listed by MQTT 5: %s; server-sendable but missing: %s; ascending: %s' % (
+                    ['0x%02x' % c for c in codes], ['0x%02x' % c for c in extra], ['0x%02x' % c for c in missing], asc),
+                key='%s:R-TABLE:%s' % (prop, cat), where=t['f'])
